@@ -153,7 +153,13 @@ fn format_project<T: FormatHandler>(
 
     for (path, module) in files {
         if input_is_stdin && contains_skip(module.attrs()) {
-            return echo_back_stdin(context.psess.snippet_provider(module.span).entire_snippet());
+            // Echo the text as it was read: the source map keeps it with `\n` only.
+            return match context.psess.get_original_snippet(&path) {
+                Some(text) => echo_back_stdin(&text),
+                None => {
+                    echo_back_stdin(context.psess.snippet_provider(module.span).entire_snippet())
+                }
+            };
         }
         should_emit_verbose(input_is_stdin, config, || println!("Formatting {}", path));
         context.format_file(path, &module, is_macro_def)?;
